@@ -45,9 +45,16 @@ class LockEngine(Engine):
         return Ptr(m.base, m.path[:-1]) if isinstance(m, Ptr) and m.path else m
     def mutex_field_of(self, obj_field):
         return self.mutex_of.get(obj_field.split('.')[0])
+    def _mutex_arg(self, inst, args):
+        m = args[0] if args else None
+        if not isinstance(m, Ptr):
+            # a mutex whose address the interpreter cannot name (e.g. a member of a NULL / unknown object): give it an opaque identity so
+            # that every consumer of locksets sees a pointer; it matches no object's mutex
+            m = Ptr('unk:%s:%s' % (inst.fn.name, inst.id), (('f', '?', 0),))
+        return m
     def on_call(self, st, inst, callee, args):
         if callee in LOCKS or callee in TRYLOCKS:
-            m = args[0] if args else None
+            m = self._mutex_arg(inst, args)
             blocking = callee in LOCKS
             self.record(Record('acquire', inst, st, mutex=m, blocking=blocking, held=dict(self.held(st)), entry=self.entry_name,
                                flags={k: v for k, v in st.ghost.items() if isinstance(k, tuple) and k[0] in ('disc', 'obs')}),
@@ -65,7 +72,7 @@ class LockEngine(Engine):
                 return [(st, TOP)]
             return [(st, 1), (s2, 0)]
         if callee in UNLOCKS:
-            m = args[0] if args else None
+            m = self._mutex_arg(inst, args)
             was = ('held', m) in st.ghost
             self.record(Record('release', inst, st, mutex=m, was_held=was, held=dict(self.held(st)), entry=self.entry_name),
                         ('rel', inst.fn.name, inst.id, st.stack(), was, tuple(sorted(st.ghost.items(), key=repr))))
@@ -76,7 +83,7 @@ class LockEngine(Engine):
                 st.ghost[('enq_local', o)] = 2          # the record is now visible to wakers
             return [(st, TOP)]
         if callee in CONDWAITS:
-            m = args[0] if args else None
+            m = self._mutex_arg(inst, args)
             self.record(Record('condwait', inst, st, mutex=m, held=dict(self.held(st)), entry=self.entry_name,
                                flags={k: v for k, v in st.ghost.items() if isinstance(k, tuple) and k[0] in ('disc',)}),
                         ('cw', inst.fn.name, inst.id, st.stack(), tuple(sorted(st.ghost.items(), key=repr))))
